@@ -113,6 +113,16 @@ SetupGetsAll(r, C) ==
      \A p \in DOMAIN r.probes : IsSetup(p) =>
         \A i \in 1..Len(ss) : ItemOf(ss[i]) # U => SeqContains(ItemsP(r.probes[p]), ItemOf(ss[i]))
 
+(* C04 (thread part): merge fed by one thread per input completes once both inputs have, and has forwarded every item *)
+MergeAll(r, C) ==
+  LET ss == AllStims(C.threads)
+      em == EmittedItems(ss) IN
+  (Op(C.root) = "merge" /\ Completes(ss, 1) /\ Completes(ss, 2) /\ \A i \in 1..Len(ss) : ss[i].k = "emit" /\ ss[i].t # "E") =>
+     \A p \in DOMAIN r.probes : IsSetup(p) =>
+        LET lg == r.probes[p] IN
+        /\ lg # <<>> /\ lg[Len(lg)][1] = "C"
+        /\ \A i \in 1..Len(em) : SeqContains(ItemsP(lg), em[i])
+
 Judge(r) ==
   LET C == Cases[r.c]
       crash == r.stuck \/ r.fault # ""
@@ -128,6 +138,8 @@ Judge(r) ==
      \o f(~r.stuck /\ r.fault = "" /\ ~FlatComplete(r, C), "C05")
      \o f(~r.stuck /\ r.fault = "" /\ ~(ShareDelivery(r, C) /\ PublishOnce(r, C)), "C11")
      \o f(~r.stuck /\ r.fault = "" /\ ~MovedAll(r, C), "C07")
+     \o f(~crash /\ ~MergeAll(r, C), "C04")
+     \o f(crash /\ rootop \in {"merge", "zip", "combine_latest", "with_latest_from", "take_until", "skip_until", "sample", "buffer"}, "C04")
      \o f(r.late, "C02")
      (* C17, last clause, under threads: in a pipeline whose subscription is a composite (merge_all ...) a subscriber called  *)
      (* after unsubscribe() returned means that an addition racing with the teardown was left running                       *)
